@@ -312,6 +312,12 @@ func getSubjectHierarchyMap(policies [][]string) (map[string]int, error) {
 		lv := 0
 		queue.PushBack(root)
 		for queue.Len() != 0 {
+			if lv > len(subjectHierarchyMap) {
+				// every path of an acyclic hierarchy is shorter than the number of
+				// subjects: deeper means a role cycle, stop instead of looping forever
+				queue.Init()
+				break
+			}
 			sz := queue.Len()
 			for i := 0; i < sz; i++ {
 				node := queue.Front()
